@@ -57,6 +57,15 @@ pub const SYMBOLS: &[(&str, Sym)] = &[
     ("generic-map-key", Sym::Type("HashMap<T, u32>")),
     ("unit-in-map-key", Sym::Type("HashMap<(), ()>")),
     ("nested-unit-option", Sym::Type("Option<Option<()>>")),
+    // map keys a target language may not be able to express
+    ("map-key-vec", Sym::Type("HashMap<Vec<String>, u32>")),
+    ("map-key-map", Sym::Type("HashMap<HashMap<String, u32>, u32>")),
+    ("map-key-array", Sym::Type("HashMap<[u8; 2], Vec<u32>>")),
+    ("map-key-option-vec", Sym::Type("HashMap<Option<Vec<u8>>, u32>")),
+    ("map-key-slice", Sym::Type("HashMap<&'static [u8], u32>")),
+    ("map-key-bool-float", Sym::Type("HashMap<bool, HashMap<f64, char>>")),
+    ("map-key-user", Sym::Type("HashMap<Base, BaseE>")),
+    ("map-key-generic-user", Sym::Type("HashMap<Vec<Base>, Option<BaseE>>")),
     ("reference-mut", Sym::Type("&'static mut u32")),
     ("shadowed-std-name", Sym::Type("Vec<Vec>")),
     // reference shapes: cycles in which a type is mentioned more than once (the dependency walk must still terminate)
